@@ -22,7 +22,7 @@ def gen(rng, tier):
     pk = iu.packaged()
     for i in range(300 if tier == 'quick' else 6000):
         cfg = iu.gen_config(rng)
-        var = [k for k, c in cfg.items() if c['field_type'] != 'FIXED' and not c.get('field_processor') and not c.get('field_python_type')]
+        var = [k for k, c in cfg.items() if c['field_type'] != 'FIXED' and not c.get('field_processor') and c.get('field_python_type') in (None, 'string')]
         if not var:
             continue
         k = rng.choice(var)
